@@ -17,10 +17,13 @@
 package main
 
 import (
+	"crypto/sha1"
 	"encoding/json"
 	"fmt"
 	"math/big"
 	"os"
+	"runtime"
+	"runtime/pprof"
 	"sort"
 	"strings"
 	"time"
@@ -105,7 +108,13 @@ var precTable = map[string]string{}
 var precInner = map[byte]vm.PrecompiledContract{}
 
 func (p *precRec) RequiredGas(input []byte) uint64 { return p.inner.RequiredGas(input) }
+
+var precRecording = true
+
 func (p *precRec) Run(input []byte) ([]byte, error) {
+	if !precRecording {
+		return p.inner.Run(input)
+	}
 	out, err := p.inner.Run(input)
 	ok := "ok"
 	if err != nil {
@@ -191,6 +200,7 @@ type tracer struct {
 	deadline     time.Time
 	evm          *vm.EVM
 	timedOut     bool
+	burn         bool // a SELFDESTRUCT whose beneficiary is the contract itself was executed
 }
 
 type finding struct{ sig, what string }
@@ -242,6 +252,9 @@ func (t *tracer) CaptureState(env *vm.EVM, pc uint64, op vm.OpCode, gas, cost ui
 	for len(t.pend) > 0 && t.pend[len(t.pend)-1].depth >= depth {
 		p := t.pend[len(t.pend)-1]
 		t.pend = t.pend[:len(t.pend)-1]
+		if p.depth == depth && p.op == vm.CREATE && len(data) > 0 && data[len(data)-1].Sign() != 0 {
+			t.addrs[common.BigToAddress(data[len(data)-1])] = true // the new contract
+		}
 		if p.depth != depth || !p.hasRoot || len(data) == 0 {
 			continue
 		}
@@ -250,8 +263,11 @@ func (t *tracer) CaptureState(env *vm.EVM, pc uint64, op vm.OpCode, gas, cost ui
 		same := root == p.root && nlogs == p.nlogs && refund == p.refund
 		sameN := root == p.rootN && nlogs == p.nlogs && refund == p.refund
 		if p.static && !same {
+			// the recognised class: STATICCALL is valid (HF5 installs the Spring set) but the Byzantium rules,
+			// which is what enforceRestrictions tests, are not yet on.  Anything else embeds the input.
 			sig := "static-frame-changed-state"
-			if t.height >= 22800 && t.height < 36050 {
+			h := big.NewInt(t.height)
+			if params.MainnetChainConfig.IsHF(5, h) && !params.MainnetChainConfig.IsByzantium(h) {
 				sig = "staticcall-not-readonly-between-hf5-and-hf7"
 			}
 			t.findings = append(t.findings, finding{sig, fmt.Sprintf("STATICCALL at pc %d depth %d (height %d): state root/logs/refund differ after the static frame (root %x -> %x, logs %d -> %d, refund %d -> %d)", p.pc, p.depth, t.height, p.root[:4], root[:4], p.nlogs, nlogs, p.refund, refund)})
@@ -297,6 +313,9 @@ func (t *tracer) CaptureState(env *vm.EVM, pc uint64, op vm.OpCode, gas, cost ui
 	case vm.SELFDESTRUCT, vm.BALANCE, vm.EXTCODESIZE:
 		if n >= 1 {
 			t.addrs[common.BigToAddress(data[n-1])] = true
+			if op == vm.SELFDESTRUCT && common.BigToAddress(data[n-1]) == contract.Address() {
+				t.burn = true
+			}
 		}
 	case vm.CALL, vm.CALLCODE, vm.DELEGATECALL, vm.STATICCALL:
 		if n >= 2 {
@@ -372,6 +391,8 @@ type runout struct {
 	prec     string
 	panicked bool
 	timedOut bool
+
+	sumBefore, sumAfter *big.Int
 }
 
 func errClass(err error) string {
@@ -591,6 +612,18 @@ func runCase(k *tcase, traceOn bool, nestedBudget int, watchdog time.Duration) (
 		return r, st
 	}
 	r.res = errClass(err)
+	// conservation: the balances of every address the run could have paid (pre-state, caller, callees,
+	// beneficiaries, created contracts)
+	r.sumBefore, r.sumAfter = new(big.Int), new(big.Int)
+	for _, a := range k.Accts {
+		r.sumBefore.Add(r.sumBefore, big0x(a.Balance))
+	}
+	if k.Kind == "create" {
+		t.addrs[r.addr] = true
+	}
+	for a := range t.addrs {
+		r.sumAfter.Add(r.sumAfter, st.GetBalance(a))
+	}
 	r.refund = st.GetRefund()
 	r.logs = dumpLogs(st)
 	r.prec = precTableString()
@@ -1070,6 +1103,14 @@ func outer2(to common.Address) []byte { return callAndReport(0xfa, new(big.Int).
 func (g *gen) precompileInputs(p int64) [][]byte {
 	r := g.r
 	ins := [][]byte{nil, r.Bytes(1 + r.Intn(200))}
+	if adv := g.adversarialInputs(p); len(adv) > 0 {
+		for i := 0; i < 3; i++ {
+			in := adv[r.Intn(len(adv))]
+			if d := modexpDanger(in); len(in) <= 1000 && (p != 5 || d <= 1<<16) {
+				ins = append(ins, in)
+			}
+		}
+	}
 	switch p {
 	case 1:
 		// a valid signature shape: hash, v=27/28, r, s
@@ -1198,6 +1239,9 @@ type checker struct {
 	epochs       map[string]int
 	results      map[string]int
 	maxDepthSeen int
+	maxHeapRatio float64
+	maxHeap      uint64
+	heapTripped  bool
 }
 
 func epochOf(h int64) string {
@@ -1291,9 +1335,17 @@ func (ch *checker) check(k *tcase, withModel bool) *tracer {
 			c.Violate("depth-exceeds-1024", fmt.Sprintf("a frame ran at evm.depth %d (Yellow-Paper depth %d)", t.maxDepth, t.maxDepth-1), k)
 		}
 		for _, f := range t.findings {
-			c.Violate(f.sig, f.what, k)
+			sig := f.sig
+			if sig != "staticcall-not-readonly-between-hf5-and-hf7" {
+				sig += "/" + caseHash(k)
+			}
+			c.Violate(sig, f.what, k)
+		}
+		if r.sumAfter.Cmp(r.sumBefore) > 0 || (!t.burn && r.sumAfter.Cmp(r.sumBefore) != 0) {
+			c.Violate("balances-not-conserved/"+caseHash(k), fmt.Sprintf("sum of balances %v before, %v after (self-destruct to self seen: %v)", r.sumBefore, r.sumAfter, t.burn), k)
 		}
 	}
+	ch.heapCheck(k)
 	// ---------------- correspondence
 	if withModel && !r.panicked && !r.timedOut {
 		fuelcap := 3000000
@@ -1308,7 +1360,7 @@ func (ch *checker) check(k *tcase, withModel bool) *tracer {
 		req := k.request(r.trace != "off", fuelcap, r.prec)
 		tm := time.Now()
 		ans := ch.m.Ask(req)
-		if os.Getenv("C07_TIMING") != "" && time.Since(tm) > 500*time.Millisecond {
+		if os.Getenv("C07_TIMING") != "" && time.Since(tm) > 15*time.Millisecond {
 			fmt.Fprintf(os.Stderr, "REQ %v %s\n", time.Since(tm), req)
 		}
 		f := strings.Split(ans, " ")
@@ -1330,6 +1382,84 @@ func (ch *checker) check(k *tcase, withModel bool) *tracer {
 		}
 	}
 	return t
+}
+
+func caseHash(k *tcase) string {
+	h := sha1.Sum(mustJSON(k))
+	return fmt.Sprintf("%x", h[:5])
+}
+
+// heapCheck re-runs the case without the tracer and compares the bytes the Go runtime allocated
+// during the call with the gas that was paid: a program must not make the node allocate memory it did
+// not pay for (EVM memory costs 3 gas per 32 bytes, copies and hashes are priced per word).
+const heapBase, heapPerGas = 1 << 20, 128
+
+func (ch *checker) heapCheck(k *tcase) {
+	st := buildState(k)
+	caller := addr0x(k.Caller)
+	ctx := vm.Context{CanTransfer: core.CanTransfer, Transfer: core.Transfer, GetHash: getHash,
+		Origin: caller, GasPrice: big.NewInt(gasPriceV), Coinbase: common.HexToAddress(coinbaseHx), GasLimit: gasLimit,
+		BlockNumber: big.NewInt(k.Height), Time: big.NewInt(timeV), Difficulty: big.NewInt(diffV)}
+	evm := vm.NewEVM(ctx, st, params.MainnetChainConfig, vm.Config{})
+	value := big0x(k.Value)
+	data := []byte{}
+	if k.Data != "-" && k.Data != "" {
+		data = vh.UnHex(k.Data)
+	}
+	type res struct {
+		left     uint64
+		panicked bool
+		pv       interface{}
+		alloc    uint64
+	}
+	done := make(chan res, 1)
+	precRecording = false
+	defer func() { precRecording = true }()
+	go func() {
+		var r res
+		var m0, m1 runtime.MemStats
+		runtime.ReadMemStats(&m0)
+		r.panicked, r.pv = vh.CatchPanic(func() {
+			if k.Kind == "call" {
+				_, r.left, _ = evm.Call(vm.AccountRef(caller), addr0x(k.Target), data, k.Gas, value)
+			} else {
+				_, _, r.left, _ = evm.Create(vm.AccountRef(caller), data, k.Gas, value)
+			}
+		})
+		runtime.ReadMemStats(&m1)
+		r.alloc = m1.TotalAlloc - m0.TotalAlloc
+		done <- r
+	}()
+	select {
+	case r := <-done:
+		if r.panicked {
+			ch.c.Violate("panic/"+k.Class+"/"+firstLine(fmt.Sprint(r.pv)), fmt.Sprintf("the EVM panicked (run without tracer): %v", r.pv), k)
+			return
+		}
+		used := k.Gas - r.left
+		if r.left > k.Gas {
+			used = 0
+		}
+		bound := uint64(heapBase) + heapPerGas*used
+		if used > (1<<62)/heapPerGas {
+			bound = 1 << 63
+		}
+		if r.alloc > bound {
+			ch.c.Violate("heap-not-paid-for/"+caseHash(k), fmt.Sprintf("the call allocated %d bytes on the Go heap for %d gas paid (bound %d + %d per gas)", r.alloc, used, heapBase, heapPerGas), k)
+			ch.heapTripped = true
+		}
+		if used > 0 && r.alloc > 1<<16 {
+			if ratio := float64(r.alloc) / float64(used); ratio > ch.maxHeapRatio {
+				ch.maxHeapRatio = ratio
+			}
+		}
+		if r.alloc > ch.maxHeap {
+			ch.maxHeap = r.alloc
+		}
+	case <-time.After(20 * time.Second):
+		evm.Cancel()
+		ch.c.Violate("no-termination/"+k.Class+"/"+caseHash(k), "the call (run without tracer) did not return within the watchdog", k)
+	}
 }
 
 // only the neighbourhood of the first difference of two long traces is reported
@@ -1372,6 +1502,11 @@ func mustJSON(v interface{}) []byte {
 
 func main() {
 	c := vh.Init("C07")
+	if pf := os.Getenv("C07_PROFILE"); pf != "" {
+		f, _ := os.Create(pf)
+		pprof.StartCPUProfile(f)
+		defer pprof.StopCPUProfile()
+	}
 	installRecorders()
 	m := c.StartModel()
 	defer m.Close()
@@ -1393,9 +1528,11 @@ func main() {
 		return
 	}
 	g := &gen{c, c.Rng.Fork()}
+	ch.precompileStream(g)
 	start := time.Now()
-	budget := time.Duration(c.Scale(18, 900)) * time.Second
+	budget := time.Duration(c.Scale(20, 900)) * time.Second
 	cases := g.templates()
+	cases = append(cases, g.selfdestructScenarios()...)
 	cases = append(cases, g.randomCases(c.Scale(900, 30000))...)
 	// deterministic shuffle, so that a time budget cuts every class alike
 	for i := len(cases) - 1; i > 0; i-- {
@@ -1414,7 +1551,36 @@ func main() {
 			first = append(first, k)
 		}
 	}
-	cases = append(first, bulk...)
+	// among the scenarios: the static-call ones and the fixed self-destruct scripts lead, so that they run
+	// in every run whatever the load of the machine
+	rank := func(k *tcase) int {
+		switch {
+		case strings.HasPrefix(k.Class, "tmpl/static"):
+			return 0
+		case k.Class == "scn/selfdestruct-fixed":
+			return 1
+		case strings.HasPrefix(k.Class, "tmpl/child"), strings.HasPrefix(k.Class, "tmpl/selfdestruct"), strings.HasPrefix(k.Class, "tmpl/value"):
+			return 2
+		case strings.HasPrefix(k.Class, "tmpl/recursion"), strings.HasPrefix(k.Class, "tmpl/create"):
+			return 3
+		}
+		return 4
+	}
+	sort.SliceStable(first, func(i, j int) bool { return rank(first[i]) < rank(first[j]) })
+	nlead := 0
+	for nlead < len(first) && rank(first[nlead]) <= 1 {
+		nlead++
+	}
+	cases = append([]*tcase{}, first[:nlead]...)
+	rest := first[nlead:]
+	for i := 0; i < len(rest) || i < len(bulk); i++ {
+		if i < len(rest) {
+			cases = append(cases, rest[i])
+		}
+		if i < len(bulk) {
+			cases = append(cases, bulk[i])
+		}
+	}
 	boundary := 0
 	for i, k := range cases {
 		if time.Since(start) > budget {
@@ -1426,7 +1592,7 @@ func main() {
 			c.Sample(k)
 		}
 		// gas budgets +-1 around the cumulative cost of the steps of the top frame
-		if len(t.stepGas) > 1 && k.Gas >= t.stepGas[0] && (i%4 == 0 || strings.HasPrefix(k.Class, "tmpl/static") || strings.HasPrefix(k.Class, "tmpl/create")) {
+		if len(t.stepGas) > 1 && k.Gas >= t.stepGas[0] && (i%4 == 0 || strings.HasPrefix(k.Class, "tmpl/static")) {
 			n := len(t.stepGas)
 			picks := c.Scale(2, 12)
 			for j := 0; j < picks; j++ {
@@ -1459,9 +1625,308 @@ func main() {
 	}
 	sort.Strings(rs)
 	c.Note("top-level results: %s", strings.Join(rs, " "))
+	c.Note("Go heap allocated during a call: at most %d bytes; largest bytes-per-gas ratio among calls allocating > 64 KiB: %.1f (bound %d + %d per gas)", ch.maxHeap, ch.maxHeapRatio, heapBase, heapPerGas)
 	c.Note("deepest frame: evm.depth %d (Yellow-Paper depth %d); gas-boundary cases %d", ch.maxDepthSeen, ch.maxDepthSeen-1, boundary)
 	c.Assume("block context fixed (coinbase, time, difficulty, gas price, gas limit 8e6); BLOCKHASH served by a fixed function; the precompiled contracts' outputs (and bigModExp's price) are taken from the implementation as an oracle table, their other prices are modelled")
 	c.Assume("model-compared cases are limited to runs of at most 2.5e6 steps and 1 MiB of EVM memory; the direct oracle runs on every case")
 	_ = crypto.Keccak256
 	c.Finish()
+}
+
+// ---------------------------------------------------------------- labels for the scenario contracts
+
+type lasm struct {
+	asm
+	labels  map[string]int
+	patches map[int]string
+}
+
+func newLasm() *lasm { return &lasm{labels: map[string]int{}, patches: map[int]string{}} }
+func (a *lasm) label(n string) *lasm {
+	a.labels[n] = len(a.b)
+	a.b = append(a.b, 0x5b)
+	return a
+}
+func (a *lasm) pushL(n string) *lasm {
+	a.b = append(a.b, 0x61, 0, 0)
+	a.patches[len(a.b)-2] = n
+	return a
+}
+func (a *lasm) done() []byte {
+	for at, n := range a.patches {
+		d, ok := a.labels[n]
+		if !ok {
+			panic("label " + n)
+		}
+		a.b[at], a.b[at+1] = byte(d>>8), byte(d)
+	}
+	return a.b
+}
+
+// a contract that does, by the length of its call data: 0 SELFDESTRUCT(benef); 1 STOP (takes the value);
+// 2 "dead code": SSTORE(5, SLOAD(5)+1) and return its balance; 3 CREATE(1 wei, empty init code);
+// 4 call back into `back` with one byte of call data (re-entrancy); >4 STOP
+func scnLib(benef, back common.Address) []byte {
+	a := newLasm()
+	for i := 1; i <= 4; i++ {
+		a.pushU(uint64(i)).op(0x36, 0x14) // CALLDATASIZE EQ
+		a.pushL(fmt.Sprintf("L%d", i)).op(0x57)
+	}
+	a.op(0x36)
+	a.pushL("end").op(0x57) // size > 4 -> STOP
+	a.pushA(benef).op(0xff) // size 0
+	a.label("L1").op(0x00)
+	a.label("L2").pushU(1).pushU(5).op(0x54, 0x01).pushU(5).op(0x55).op(0x30, 0x31).pushU(0).op(0x52).pushU(32).pushU(0).op(0xf3)
+	a.label("L3").pushU(0).pushU(0).pushU(1).op(0xf0).pushU(0).op(0x52).pushU(32).pushU(0).op(0xf3)
+	a.label("L4").pushU(0).pushU(0).pushU(1).pushU(0).pushU(0).pushA(back).op(0x5a).op(0xf1).op(0x00)
+	a.label("end").op(0x00)
+	return a.done()
+}
+
+type scnAct struct {
+	op     byte // call kind
+	target common.Address
+	value  uint64
+	size   int // call data length = branch of scnLib
+}
+
+// the orchestrating contract: re-entered (call data not empty) it makes `reent` self-destruct once more;
+// otherwise it performs the script, one call after the other
+func scnMain(script []scnAct, reent common.Address) []byte {
+	a := newLasm()
+	a.op(0x36)
+	a.pushL("re").op(0x57)
+	for _, s := range script {
+		a.pushU(0).pushU(0).pushU(uint64(s.size)).pushU(0)
+		if s.op == 0xf1 || s.op == 0xf2 {
+			a.pushU(s.value)
+		}
+		a.pushA(s.target).op(0x5a).op(s.op).op(0x50)
+	}
+	a.op(0x00)
+	a.label("re").pushU(0).pushU(0).pushU(0).pushU(0).pushU(0).pushA(reent).op(0x5a).op(0xf1).op(0x00)
+	return a.done()
+}
+
+// repeated self-destruction of one address inside one transaction with payments in between, calls into
+// the "dead" code, creation from it, self-destruct to self, through DELEGATECALL/CALLCODE (the caller
+// destroys itself and goes on), and re-entrancy
+func (g *gen) selfdestructScenarios() []*tcase {
+	r := g.r
+	var out []*tcase
+	sd := func(t common.Address) scnAct { return scnAct{0xf1, t, 0, 0} }
+	pay := func(t common.Address, v uint64) scnAct { return scnAct{0xf1, t, v, 1} }
+	fixed := [][]scnAct{
+		{sd(addrLib), pay(addrLib, 5), sd(addrLib), pay(addrLib, 7), sd(addrLib), sd(addrLib)},
+		{sd(addrLib), {0xf1, addrLib, 0, 2}, pay(addrLib, 3), {0xf1, addrLib, 0, 2}, sd(addrLib)},
+		{pay(addrLib, 9), {0xf1, addrLib, 0, 3}, sd(addrLib), pay(addrLib, 4), {0xf1, addrLib, 0, 3}, sd(addrLib)},
+		{sd(addrLib), sd(addrLib2), pay(addrLib, 2), pay(addrLib2, 2), sd(addrLib2), sd(addrLib)},
+		{{0xf4, addrLib, 0, 0}, pay(addrLib, 6), {0xf1, addrLib, 0, 4}, sd(addrLib)},
+		{{0xf2, addrLib, 0, 0}, pay(addrLib2, 6), sd(addrLib2), {0xf4, addrLib, 0, 0}},
+		{pay(addrLib, 8), {0xf1, addrLib, 0, 4}, pay(addrLib, 1), {0xf1, addrLib, 0, 4}, sd(addrLib)},
+	}
+	benefs := []common.Address{addrEmpty, addrNone, addrLib, addrMain, addrLib2, addrCaller}
+	emit := func(script []scnAct, b1, b2 common.Address, class string) {
+		main := scnMain(script, addrLib)
+		accts := baseAccts(main, scnLib(b1, addrMain), scnLib(b2, addrMain))
+		for _, h := range g.heights() {
+			out = append(out, &tcase{Kind: "call", Height: h, Gas: 600000, Value: "0x2", Caller: ha(addrCaller), Target: ha(addrMain), Data: "-", Accts: accts, Class: class})
+		}
+	}
+	for i, sc := range fixed {
+		for _, b := range benefs[:4] {
+			emit(sc, b, benefs[(i+1)%len(benefs)], "scn/selfdestruct-fixed")
+		}
+	}
+	for i := 0; i < g.c.Scale(25, 1500); i++ {
+		n := 3 + r.Intn(6)
+		var sc []scnAct
+		for j := 0; j < n; j++ {
+			t := []common.Address{addrLib, addrLib, addrLib2}[r.Intn(3)]
+			switch r.Intn(8) {
+			case 0, 1, 2:
+				sc = append(sc, sd(t))
+			case 3, 4:
+				sc = append(sc, pay(t, uint64(1+r.Intn(9))))
+			case 5:
+				sc = append(sc, scnAct{0xf1, t, uint64(r.Intn(3)), 2 + r.Intn(3)})
+			case 6:
+				sc = append(sc, scnAct{[]byte{0xf2, 0xf4}[r.Intn(2)], t, 0, []int{0, 2, 3}[r.Intn(3)]})
+			default:
+				sc = append(sc, scnAct{0xfa, t, 0, r.Intn(4)})
+			}
+		}
+		emit(sc, benefs[r.Intn(len(benefs))], benefs[r.Intn(len(benefs))], "scn/selfdestruct-random")
+	}
+	return out
+}
+
+// ---------------------------------------------------------------- the precompile stream
+
+func lenField(v *big.Int) []byte { return common.LeftPadBytes(v.Bytes(), 32) }
+
+var modexpLens = []*big.Int{big.NewInt(0), big.NewInt(1), big.NewInt(31), big.NewInt(32), big.NewInt(33), pow2(16), pow2(26), pow2(31), pow2(32),
+	pow2(48), pow2(63), addk(pow2(64), -1), pow2(255), addk(pow2(256), -1)}
+
+// the largest length bigModExp.Run would see (fields are truncated to uint64) below the allocator's limit
+func modexpDanger(in []byte) uint64 {
+	var m uint64
+	for i := 0; i < 3; i++ {
+		f := make([]byte, 32)
+		if len(in) > 32*i {
+			copy(f, in[32*i:])
+		}
+		v := new(big.Int).SetBytes(f)
+		u := v.Uint64()
+		if u < 1<<48 && u > m {
+			m = u
+		}
+	}
+	return m
+}
+
+func (g *gen) adversarialInputs(p int64) [][]byte {
+	r := g.r
+	var ins [][]byte
+	rnd := func(n int) []byte { return r.Bytes(n) }
+	switch p {
+	case 5:
+		small := []*big.Int{big.NewInt(0), big.NewInt(1), big.NewInt(32)}
+		bodies := [][]byte{nil, {3}, {3, 5, 7}, rnd(100)}
+		add := func(b, e, m *big.Int) {
+			in := append(append(lenField(b), lenField(e)...), lenField(m)...)
+			ins = append(ins, append(in, bodies[r.Intn(len(bodies))]...))
+		}
+		if g.c.Thorough() {
+			for _, b := range modexpLens {
+				for _, e := range modexpLens {
+					for _, m := range modexpLens {
+						add(b, e, m)
+					}
+				}
+			}
+		} else {
+			for _, x := range modexpLens {
+				for _, y := range small {
+					for _, z := range small {
+						if y.Sign() != 0 && z.Sign() != 0 && y.Cmp(z) != 0 {
+							continue
+						}
+						add(x, y, z)
+						add(y, x, z)
+						add(y, z, x)
+					}
+				}
+			}
+		}
+		// truncated headers
+		for _, n := range []int{0, 1, 31, 32, 33, 64, 95, 96, 97} {
+			ins = append(ins, rnd(n))
+		}
+		sort.SliceStable(ins, func(i, j int) bool { return modexpDanger(ins[i]) < modexpDanger(ins[j]) })
+	case 1:
+		for _, n := range []int{0, 1, 31, 32, 64, 127, 128, 129, 200, 1000} {
+			ins = append(ins, rnd(n))
+		}
+		for _, v := range []byte{0, 26, 27, 28, 29, 255} {
+			in := rnd(128)
+			for i := 32; i < 63; i++ {
+				in[i] = 0
+			}
+			in[63] = v
+			ins = append(ins, in)
+			in2 := append([]byte{}, in...)
+			in2[40] = 1 // high bytes of v not zero
+			ins = append(ins, in2)
+		}
+		hi := rnd(128)
+		for i := 64; i < 128; i++ {
+			hi[i] = 0xff // r, s above the group order
+		}
+		hi[63] = 27
+		for i := 32; i < 63; i++ {
+			hi[i] = 0
+		}
+		z := append(rnd(32), make([]byte, 96)...) // v = r = s = 0
+		ins = append(ins, hi, z)
+	case 2, 3, 4, 9:
+		for _, n := range []int{0, 1, 31, 32, 33, 55, 56, 63, 64, 65, 1000, 100000} {
+			ins = append(ins, rnd(n))
+		}
+	case 6, 7, 8:
+		lens := map[int64][]int{6: {0, 1, 63, 64, 127, 128, 129, 192}, 7: {0, 1, 95, 96, 97, 128}, 8: {0, 1, 191, 192, 193, 383, 384, 385, 576}}[p]
+		for _, n := range lens {
+			ins = append(ins, rnd(n), make([]byte, n))
+		}
+		gen12 := append(common.LeftPadBytes([]byte{1}, 32), common.LeftPadBytes([]byte{2}, 32)...)
+		ins = append(ins, append(append([]byte{}, gen12...), gen12...), append(append([]byte{}, gen12...), rnd(32)...))
+	}
+	return ins
+}
+
+func safeRequiredGas(p vm.PrecompiledContract, in []byte) (gas uint64, panicked bool, pv interface{}) {
+	panicked, pv = vh.CatchPanic(func() { gas = p.RequiredGas(in) })
+	return
+}
+
+// every precompile, every epoch, adversarial inputs, gas around RequiredGas and a block's worth;
+// each call goes through the full check (oracles incl. panic / heap / watchdog, and the model)
+func (ch *checker) precompileStream(g *gen) {
+	c := ch.c
+	heights := []int64{10000, 30000, 40000}
+	for p := int64(1); p <= 9; p++ {
+		inner := precInner[byte(p)]
+		tripped := false
+		for idx, in := range g.adversarialInputs(p) {
+			if p == 5 && tripped && modexpDanger(in) >= 1<<26 {
+				c.Count("precompile-stream/skipped-after-violation")
+				continue // do not let a broken contract exhaust the machine: one replay is enough
+			}
+			var req uint64
+			if inner != nil {
+				var pan bool
+				var pv interface{}
+				req, pan, pv = safeRequiredGas(inner, in)
+				if pan {
+					c.Violate(fmt.Sprintf("precompile-requiredgas-panic/%d/%s", p, firstLine(fmt.Sprint(pv))), fmt.Sprintf("RequiredGas of precompile %d panicked: %v", p, pv), map[string]string{"precompile": fmt.Sprint(p), "input": vh.Hex(in)})
+					continue
+				}
+			}
+			for _, h := range heights {
+				active := p <= 4 || (p <= 8 && h >= 36050)
+				gases := []uint64{100000}
+				if active {
+					gases = []uint64{req, gasLimit}
+					if req > 0 {
+						gases = append(gases, req-1)
+					}
+					if p != 5 {
+						gases = append(gases, 0, req+1)
+					}
+					if p <= 4 && h != heights[idx%3] {
+						gases = []uint64{req} // the same contract in every epoch: the full gas set once
+					}
+					if req > gasLimit {
+						gases = []uint64{gasLimit, req - 1} // cannot be paid within a block; must fail without running
+						if req-1 > 1<<40 {
+							gases = []uint64{gasLimit}
+						}
+					}
+				} else if idx%8 != 0 || h == 10000 && p > 5 {
+					continue // not a precompile in this epoch: a plain call to an empty account, sampled
+				}
+				for _, gas := range gases {
+					k := &tcase{Kind: "call", Height: h, Gas: gas, Value: "0x0", Caller: ha(addrCaller), Target: hx(big.NewInt(p)), Data: hexb(in),
+						Accts: baseAccts(nil, nil, nil), Class: fmt.Sprintf("precompile-stream/%d", p)}
+					before := len(c.Res.Violations)
+					// the extracted model computes a 256-bit modular exponentiation in about a second: sampled
+					heavy := p == 5 && len(in) > 128 && in[63] >= 31 && in[95] >= 31
+					ch.check(k, len(in) <= 4096 && (p != 5 || modexpDanger(in) <= 4096) && (!heavy || (idx%16 == 0 && gas == gasLimit)))
+					if len(c.Res.Violations) > before || ch.heapTripped {
+						tripped = true
+					}
+				}
+			}
+		}
+	}
 }
